@@ -108,6 +108,81 @@ __xml_namespace__ = "https://dummy.com/gen"
 '''
 
 
+MULTI_PARENT_CPRIM_MODEL = mmgen.IMPORTS + '''
+@verification
+def matches_lower(text: str) -> bool:
+    """Check the text."""
+    pattern = f"^[a-z]*$"
+    return match(pattern, text) is not None
+
+
+@verification
+def matches_no_x(text: str) -> bool:
+    """Check the text."""
+    pattern = f"^[^x]*$"
+    return match(pattern, text) is not None
+
+
+@invariant(lambda self: len(self) <= 6, "At most six characters.")
+class Short_text(str, DBC):
+    pass
+
+
+@invariant(lambda self: matches_lower(self), "Must be lower-case.")
+class Lower_text(str, DBC):
+    pass
+
+
+@invariant(lambda self: len(self) >= 2, "At least two characters.")
+class Longish_text(str, DBC):
+    pass
+
+
+class Short_lower_text(Short_text, Lower_text, DBC):
+    pass
+
+
+@invariant(lambda self: matches_no_x(self), "Must not have an x.")
+class Picky_text(Short_text, Lower_text, Longish_text, DBC):
+    pass
+
+
+class Lower_short_text(Lower_text, Short_text, DBC):
+    pass
+
+
+@invariant(lambda self: len(self.some_texts) >= 1, "At least one text.")
+class Something(DBC):
+    some_text: Short_lower_text
+
+    other_text: Lower_short_text
+
+    picky_text: Picky_text
+
+    some_texts: List[Picky_text]
+
+    optional_text: Optional[Short_lower_text]
+
+    def __init__(
+        self,
+        some_text: Short_lower_text,
+        other_text: Lower_short_text,
+        picky_text: Picky_text,
+        some_texts: List[Picky_text],
+        optional_text: Optional[Short_lower_text] = None,
+    ) -> None:
+        self.some_text = some_text
+        self.other_text = other_text
+        self.picky_text = picky_text
+        self.some_texts = some_texts
+        self.optional_text = optional_text
+
+
+__version__ = "V0.1"
+__xml_namespace__ = "https://dummy.com/gen"
+'''
+
+
 DIAMOND_MODEL = mmgen.IMPORTS + '''
 @abstract
 class Top(DBC):
@@ -187,6 +262,7 @@ def targeted_models() -> List[Tuple[str, str]]:
         ("targeted/guard-on-other-property/length", CROSS_GUARD_MODEL),
         ("targeted/guard-on-other-property/pattern", CROSS_GUARD_PATTERN_MODEL),
         ("targeted/two-patterns-own-and-constrained-primitive", TWO_PATTERNS_MODEL),
+        ("targeted/constrained-primitive-with-several-parents", MULTI_PARENT_CPRIM_MODEL),
     ]
 
 
